@@ -190,3 +190,6 @@ def run(chk, repo):
     # ------------------------------------------------------------------ h
     from rules.C10 import rule_thread
     rule_thread(chk, repo, 'C01.h', quals=('cli.common:load_references',))
+    from rules.shared import pointers_append_only
+    chk.clauses.append('C01.i (shared) records of a transcript are gathered from EVERY GVF file: the pointer table only grows')
+    pointers_append_only(chk, repo, 'C01.i')
